@@ -489,14 +489,11 @@ func (r *rewriter) post(c *astutil.Cursor) bool {
 		}
 	case *ast.SelectorExpr:
 		// time.Ticker in type position
-		if name, ok := r.isPkgSel(n, "time"); ok && (name == "Ticker") {
+		if name, ok := r.isPkgSel(n, "time"); ok && (name == "Ticker" || name == "Timer") {
 			r.needT = true
 			c.Replace(sel("vtime", name))
 			r.changed = true
 			r.stats["time.type"]++
-		}
-		if name, ok := r.isPkgSel(n, "time"); ok && (name == "Timer") {
-			die("%s: time.Timer is not supported", r.pos(n))
 		}
 	}
 	return true
@@ -518,8 +515,8 @@ func (r *rewriter) rewriteStmts(list []ast.Stmt) []ast.Stmt {
 	return b.List
 }
 
-var timeFuncs = map[string]bool{"Now": true, "Since": true, "Sleep": true, "After": true, "NewTicker": true, "Until": true}
-var timeBad = map[string]bool{"NewTimer": true, "AfterFunc": true, "Tick": true}
+var timeFuncs = map[string]bool{"Now": true, "Since": true, "Sleep": true, "After": true, "NewTicker": true, "Until": true, "NewTimer": true, "AfterFunc": true}
+var timeBad = map[string]bool{"Tick": true}
 
 func (r *rewriter) rewriteCall(n *ast.CallExpr) ast.Node {
 	switch f := n.Fun.(type) {
